@@ -1184,6 +1184,9 @@ func genPlan(rng *rand.Rand, name string, mode string) *Plan {
 					ds = append(ds, d)
 				}
 			}
+			if len(ds) >= 1 && len(ds) < 3 && rng.Intn(6) == 0 {
+				ds = append(ds, "1356:0x0000000000000000000000000000000000000abc") // a child executed by the hub's own broker
+			}
 			if len(ds) >= 2 {
 				var gi []uint64
 				for _, d := range ds {
